@@ -263,12 +263,23 @@ def tiger_case(rng):
             at = [("id", idof[id(x)]), ("word", x.data['word']), ("lemma", x.data['lemma']), ("pos", x.data['label']),
                   ("morph", x.data['morph'])]
             rng.shuffle(at)
-            return "<t " + " ".join("%s=%s" % (k_, quoteattr(v)) for k_, v in at) + " />"
+            attrs = " ".join("%s=%s" % (k_, quoteattr(v)) for k_, v in at)
+            if rng.random() < 0.15:
+                # a secondary edge below a token: not part of the tree
+                return "<t " + attrs + ">" + secedge() + "</t>"
+            return "<t " + attrs + " />"
+        allids = list(idof.values())
+        def secedge():
+            return "<secedge label=%s idref=%s />" % (quoteattr(rng.choice(["SB", "OA", "x&y"])), quoteattr(rng.choice(allids)))
         def ntline(n):
             es = list(trees.children(n))
             rng.shuffle(es)
-            return "<nt id=%s cat=%s>" % (quoteattr(idof[id(n)]), quoteattr(n.data['label'])) + \
-                "".join("<edge label=%s idref=%s />" % (quoteattr(c.data['edge']), quoteattr(idof[id(c)])) for c in es) + "</nt>"
+            parts = ["<edge label=%s idref=%s />" % (quoteattr(c.data['edge']), quoteattr(idof[id(c)])) for c in es]
+            if rng.random() < 0.25:
+                # secondary edges below a constituent (shared arguments of coordinations): not part of the tree
+                for _ in range(rng.randint(1, 2)):
+                    parts.insert(rng.randint(0, len(parts)), secedge())
+            return "<nt id=%s cat=%s>" % (quoteattr(idof[id(n)]), quoteattr(n.data['label'])) + "".join(parts) + "</nt>"
         nts = [ntline(n) for n in cons]
         rng.shuffle(nts)
         sid_attr = rng.choice(["s%d", "%d", "corpus_2_s%d"]) % num
